@@ -424,6 +424,14 @@ mod c18 {
         c18_wiring::<3>();
     }
 
+    /// ... and <= 1 byte (cheapest instance on which text decoding of the source still runs).
+    #[kani::proof]
+    #[kani::stub(uuid::Uuid::new_v5, new_v5_recorder)]
+    #[kani::unwind(20)]
+    fn c18_uuid_wiring_1() {
+        c18_wiring::<1>();
+    }
+
     fn c18_wiring<const N: usize>() {
         let buf: [u8; N] = kani::any();
         let len: usize = kani::any();
@@ -442,7 +450,7 @@ mod c18 {
             assert!(*u.as_bytes() == RESULT[1], "C18: the returned UUID is not the second hash");
         }
         kani::cover!(len == 0, "empty source");
-        kani::cover!(len == N && buf[N - 1] == b'\n' && buf[N - 2] == b'\r', "source ending in CRLF");
+        kani::cover!(N < 2 || (len == N && buf[N - 1] == b'\n' && buf[N - 2 + (N < 2) as usize] == b'\r'), "source ending in CRLF");
     }
 }
 
@@ -714,3 +722,23 @@ fn c05_parse_usize_20() {
     kani::cover!(v > u64::MAX as u128, "overflowing digit run");
 }
 
+
+/// Model validation: `from_utf8_model` agrees with the real `core::str::from_utf8`
+/// (accept/reject, and the accepted slice) on every byte string of <= 3 bytes:
+/// every 1-, 2- and 3-byte code point class, overlongs, surrogates, truncations.
+#[kani::proof]
+#[kani::unwind(8)]
+fn s_from_utf8_3() {
+    let buf: [u8; 3] = kani::any();
+    let len: usize = kani::any();
+    kani::assume(len <= 3);
+    let s = &buf[..len];
+    let real = core::str::from_utf8(s);
+    let model = from_utf8_model(s);
+    assert!(real.is_ok() == model.is_ok(), "model: from_utf8 accept/reject differs");
+    if let (Ok(a), Ok(b)) = (real, model) {
+        assert!(a.as_ptr() == b.as_ptr() && a.len() == b.len(), "model: from_utf8 slice differs");
+    }
+    kani::cover!(len == 3 && buf[0] == 0xE2 && real.is_ok(), "3-byte character accepted");
+    kani::cover!(len == 3 && buf[0] == 0xED && buf[1] == 0xA0 && real.is_err(), "surrogate rejected");
+}
